@@ -363,6 +363,15 @@ pub fn run(ctx: &mut Ctx) {
             }
         }
     }
+    // rule-sensitive names for the enum (pypi / nuget / maven), extended by random calls
+    let mut r = ctx.rng("c09.names");
+    for _ in 0..ctx.share(100_000, 3_000_000) {
+        let mut h = super::values::name_hist(&mut r);
+        for _ in 0..r.below(3) {
+            h.calls.push(hist::rand_call(&mut r, true));
+        }
+        case(ctx, "PackageType", &h, true);
+    }
     // random histories with hostile strings
     let mut r = ctx.rng("c09.g4");
     for _ in 0..ctx.share(250_000, 8_000_000) {
